@@ -43,11 +43,11 @@ theorem Ext.of_eq {w w' : World U} (h1 : w'.err = w.err) (h2 : w'.obs = w.obs) (
     (h4 : w'.activeSnap = w.activeSnap) (h5 : w'.trace = w.trace) : Ext w w' :=
   ⟨fun h => by rw [← h1]; exact h, h2, h3, h4, fun e he => Or.inl (h5 ▸ he)⟩
 
-theorem fail'_err (w : World U) (msg : String) : (w.fail' msg).err ≠ none := by
+theorem fail'_errX (w : World U) (msg : String) : (w.fail' msg).err ≠ none := by
   unfold fail'; split <;> simp_all
 
 theorem fail'_ext (w : World U) (msg : String) : Ext w (w.fail' msg) := by
-  refine ⟨fun h => absurd h (fail'_err w msg), ?_, ?_, ?_, fun e he => Or.inl ?_⟩
+  refine ⟨fun h => absurd h (fail'_errX w msg), ?_, ?_, ?_, fun e he => Or.inl ?_⟩
   · unfold fail'; split <;> rfl
   · unfold fail'; split <;> rfl
   · unfold fail'; split <;> rfl
